@@ -297,7 +297,7 @@ def lmnn_fit_case(dname, kdim, max_iter, max_evals=4):
   return fn
 
 
-class _LSelf:
+class _LSelf(harness.StandIn):
   def __init__(self, ctx, kdim, d, max_calls):
     self.ctx, self.kdim, self.d, self.max_calls = ctx, kdim, d, max_calls
     self.calls = []
